@@ -26,7 +26,7 @@ sys.path.insert(0, HERE)
 from pyvc import spec as S   # noqa: E402
 
 SPEC_MODULES = ['specs.c_topology', 'specs.c_registry', 'specs.c_runfor', 'specs.c_dicts', 'specs.c_timeline', 'specs.c_emitter',
-                'specs.c_engine', 'specs.c_store', 'specs.c_process', 'specs.c_composer', 'specs.c_apply', 'specs.c_embed', 'specs.c_emit']
+                'specs.c_engine', 'specs.c_store', 'specs.c_process', 'specs.c_composer', 'specs.c_apply', 'specs.c_embed', 'specs.c_emit', 'specs.c_emit2']
 
 
 def load_specs():
